@@ -124,6 +124,25 @@ CLAIMED['C05'] = dict(
          'gives bit-identical continuation for every cut point.',
     design_ref='3 (C05), 2.5')
 
+CLAIMED['C06'] = dict(
+    technique='bounded symbolic execution of the real checkpoint writers '
+              'inside run() over a journalled HDF5 model; kill position = '
+              'symbolic journal index assumed per position; real resume code '
+              'on the crashed file; replay by killing a child process on '
+              'real h5py',
+    text='For every explored path of an iteration and every journal '
+         'position of its file operations the solver-checked obligations '
+         'say the file exists, loads, and equals a completely written '
+         'state, under two durability models; the in-place shell update is '
+         'a recorded known finding, everything else (full write, resume) '
+         'must hold. Narrower than the property in that kill points are API '
+         'operations, not individual write system calls.',
+    design_ref='3 (C06), 2.5',
+    note='Trusted base: z3, symx/symnp, the symh5 file model (operations '
+         'atomic and durable in order; os.replace atomic); replay uses real '
+         'h5py with a child killed by os._exit at the same operation '
+         '(flushing after every operation for the write-through model).')
+
 NOT_APPLICABLE = {
     'C04': 'statement about the distribution of whole-program outputs over '
            'seed ensembles; no bounded symbolic input space decides it '
